@@ -135,11 +135,6 @@ def build(init, hist):
             dd = diff_tables(bm.df_features, fresh2.df_features)
             if dd:
                 return bm, led, sid, ('hidden-state', 'fit differs from a fresh object built from the live attributes: ' + dd)
-            if freeze(bm.thresholds) != freeze(led['thresholds']):
-                return bm, led, sid, ('settings-drift', 'live thresholds %s != current settings %s' % (bm.thresholds, led['thresholds']))
-            if freeze(bm.find_extrema_kwargs) != freeze(led['find_extrema_kwargs']):
-                return bm, led, sid, ('settings-drift', 'live find_extrema_kwargs %s != current settings %s'
-                                      % (bm.find_extrema_kwargs, led['find_extrema_kwargs']))
             for c in bm.df_features.columns:
                 v = getattr(bm, c)
                 if not np.array_equal(np.asarray(v), bm.df_features[c].values, equal_nan=bm.df_features[c].dtype != bool):
@@ -160,9 +155,6 @@ def build(init, hist):
         elif kind == 'setfek':
             bm.find_extrema_kwargs['filter_kwargs']['n_cycles'] = op[1]       # in-place edit of a nested setting
             led['find_extrema_kwargs']['filter_kwargs']['n_cycles'] = op[1]
-            prob = check_fresh_defaults(led['burst_method'])
-            if prob:
-                return bm, led, sid, prob
             # ... and a fresh default object still analyses the filter-sensitive signal with the default filter
             d = Bycycle(thresholds=copy.deepcopy(led['thresholds']), burst_method=led['burst_method'])
             d.fit(np.array(SIGS['S3']), FS, FR)
